@@ -6,4 +6,7 @@ MUTANTS = [
     M('C09', 'bit.input fills 7 bits', 'flipjump/stl/bit/input.fj', "        rep(8, i) .input_bit dst+i*dw", "        rep(7, i) .input_bit dst+i*dw", 'C09.EXTENT'),
     M('C09', 'hex.print high hex first', 'flipjump/stl/hex/output.fj', "        .output x\n        .output x+dw", "        .output x+dw\n        .output x", 'C09.BITORDER'),
     M('C09', 'hex.input n strides by one hex', 'flipjump/stl/hex/input.fj', "        rep(n, i) .input bytes+2*i*dw", "        rep(n, i) .input bytes+i*dw", 'C09.BITORDER'),
+    M('C09', 'print_dec_uint clears one flag less than it sets (seed C09_1)', 'flipjump/stl/bit/output.fj', "        .zero n*28/93+1, print_buffer_flag", "        .zero n*28/93, print_buffer_flag", 'C09.SCRATCH'),
+    M('C09', 'print_hex_int keeps its sign flag between executions', 'flipjump/stl/bit/output.fj', "        .zero neg\n", "", 'C09.SCRATCH', count=2),
+    M('C09', 'EQ hex input_dec clears one hex less of its digit register (the top hex is only ever read)', 'flipjump/stl/hex/input.fj', "        .zero n, digit\n", "        .zero n-1, digit\n", None, count=2),
 ]
